@@ -184,7 +184,10 @@ class ListeningConnection(Connection):
         )
         connection._reader, connection._writer = reader, writer
         await self.network.on_peer_accepted(connection)
-        await connection.set_state(ConnectionState.CONNECTED)
+        # Initialization can fail and disconnect the connection, only a
+        # connection that is still being set up becomes CONNECTED
+        if connection.state == ConnectionState.UNINITIALIZED:
+            await connection.set_state(ConnectionState.CONNECTED)
 
 
 class DataConnection(Connection, abc.ABC):
